@@ -32,7 +32,7 @@ func stress(run *ev.Run, nats *rig.NatsServer) {
 	var wg sync.WaitGroup
 	sem := make(chan struct{}, 8)
 	var mu sync.Mutex
-	totalCallers, totalFrames, stalls := 0, 0, 0
+	totalCallers, totalFrames, stalls, cross := 0, 0, 0, 0
 	for i, sp := range specs {
 		wg.Add(1)
 		sem <- struct{}{}
@@ -50,6 +50,7 @@ func stress(run *ev.Run, nats *rig.NatsServer) {
 			mu.Lock()
 			totalCallers += r.Callers
 			totalFrames += r.Frames
+			cross += r.CrossSubject
 			mu.Unlock()
 			switch {
 			case r.Bad != "":
@@ -69,5 +70,6 @@ func stress(run *ev.Run, nats *rig.NatsServer) {
 	run.Set("stress_trials", trials)
 	run.Set("stress_callers", totalCallers)
 	run.Set("stress_response_frames_injected", totalFrames)
+	run.Set("stress_nats_frames_published_on_another_requests_reply_subject", cross)
 	run.Set("stress_trials_cut_short_by_a_reader_stall_(see_C06)", stalls)
 }
